@@ -495,10 +495,24 @@ def _query_states(ctx, f):
     sh = sqlshape.Shape(ctx, f)
     state = {}
     first = {}
-    assigns = sorted([a for a in own_nodes(f.node)
-                      if isinstance(a, ast.Assign) and len(a.targets) == 1
-                      and isinstance(a.targets[0], ast.Name)],
-                     key=lambda a: (a.lineno, a.col_offset))
+    # in execution (pre-)order of the statements - not by line number:
+    # statements of an expanded helper keep the helper's positions
+    order = []
+
+    def walk(stmts):
+        for st in stmts:
+            if isinstance(st, (ast.FunctionDef, ast.AsyncFunctionDef,
+                               ast.ClassDef)):
+                continue
+            order.append(st)
+            for fld in ('body', 'orelse', 'finalbody'):
+                walk(getattr(st, fld, None) or [])
+            for h in getattr(st, 'handlers', None) or []:
+                walk(h.body)
+    walk(f.node.body)
+    assigns = [a for a in order
+               if isinstance(a, ast.Assign) and len(a.targets) == 1
+               and isinstance(a.targets[0], ast.Name)]
     for a in assigns:
         v = a.value
         root = v
@@ -530,11 +544,27 @@ def _siblings(ctx, R, f):
              'the view is computed by the queries found', names, func=f,
              nontrivial=False)
         return
-    main = names[0]
-    for nm in names:
-        if len(state[nm][1]) > len(state[main][1]) or 'count' not in nm:
-            main = nm if 'count' not in nm else main
-
+    # the sibling queries are the ones the function executes (by whatever
+    # names their construction passes through)
+    EXEC = ('all', 'scalar', 'first', 'one', 'one_or_none', 'fetchall',
+            'fetchone', 'count')
+    ran = set()
+    for c in own_nodes(f.node):
+        if isinstance(c, ast.Call) and isinstance(
+                c.func, ast.Attribute) and c.func.attr in EXEC and \
+                isinstance(c.func.value, ast.Name) and \
+                c.func.value.id in state:
+            ran.add(c.func.value.id)
+        if isinstance(c, ast.Call) and isinstance(
+                c.func, ast.Attribute) and c.func.attr == 'execute':
+            for a_ in c.args:
+                if isinstance(a_, ast.Name) and a_.id in state:
+                    ran.add(a_.id)
+    if len(ran) >= 2:
+        names = sorted(ran)
+    # the reference is the query with the fewest restrictions of its own
+    # (the totals), any other must restrict the same rows
+    main = sorted(names, key=lambda nm: (len(state[nm][1]), nm))[0]
     def rows(nm, drop):
         out = set()
         for conds, a in state[nm][1]:
@@ -548,7 +578,8 @@ def _siblings(ctx, R, f):
             continue
         enclosing = set(
             ('' if br == 'body' else 'not ') + C.canon(f, i.test)
-            for i, br in C.guarding_ifs(first[nm], f.node))
+            for q_ in (nm, main)
+            for i, br in C.guarding_ifs(first[q_], f.node))
         a, b = rows(main, enclosing), rows(nm, enclosing)
         R.ob('R11.5', '%s:%s-restricts-like-%s' % (f.qbase, nm, main),
              a == b,
